@@ -31,7 +31,7 @@ type verifPair struct {
 }
 
 func verifNewPair(nObjects int, chooseRound bool) *verifPair {
-	p := &verifPair{objs: verifstub.Universe("inst", nObjects)}
+	p := &verifPair{objs: verifstub.UniverseWithEmpty("inst", nObjects)}
 	p.a = verifstub.NewModel("replica-a", p.objs)
 	p.b = verifstub.NewModel("replica-b", p.objs)
 	ba := NewMirroredBlobAccess(p.a, p.b,
@@ -272,7 +272,11 @@ func Verif_C11_M2_Put() {
 		b = buffer.NewCASBufferFromReader(d, src, buffer.UserProvided)
 	case 2: // content that does not match the digest
 		good = false
-		src = &verifSource{data: []byte("y" + string(p.objs[k].Data[1:]))}
+		bad := []byte("y") // same length for non-empty objects, one byte too many for the empty one
+		if len(p.objs[k].Data) > 0 {
+			bad = []byte("y" + string(p.objs[k].Data[1:]))
+		}
+		src = &verifSource{data: bad}
 		b = buffer.NewCASBufferFromReader(d, src, buffer.UserProvided)
 	}
 
